@@ -80,7 +80,9 @@ def run_impl(chunks, kinds):
         if len(conn.errors) > e0:
             status = "error"
             break
-    buf = (h._buffer or b"")[: h._buffer_len] if h._buffer_len else b""
+    from vlib.noisesim import priv
+    blen = priv(h, "_buffer_len")
+    buf = (priv(h, "_buffer") or b"")[:blen] if blen else b""
     return per_call, bytes(buf), status
 
 
